@@ -42,25 +42,41 @@ Theorem C13_statepoint_untouched : forall frepr cf o deep fp sdir ddir dsp d' e,
 Proof. exact statepoint_untouched. Qed.
 Print Assumptions C13_statepoint_untouched.
 
-(* sync_superset (existing job) — FULL, for /repo as it is (cfg_current; the repairs 769373d "compares all file
-   names" and fbe1a6a "only the state point and document files themselves are excluded" have landed): after a
-   successful real run every source file that was absent from the destination is present byte-identically with
-   a fresh mtime — at the top level always, below it when recursive — unless a name on its path is excluded,
-   where "excluded" is: a user pattern matches, or the name is the state point / document file itself *)
+(* sync_superset (existing job) — FULL, for /repo as it is (cfg_current): after a successful real run every source
+   file that was absent from the destination is present byte-identically with a fresh mtime — at the top level
+   always, below it when recursive — unless a name on its path is excluded.  "Absent" (SyncObs.absent_in): nothing is
+   at the path, or something of the other kind is there or on the way (a file where a directory is needed, a
+   directory where the file should be) — since 4239e5d such a clash is a FileSyncConflict, so a run that returned met
+   none.  "Excluded" (clear_path, C13_excluded_means): a user pattern matches the name; or, at the top level of the
+   job only, the name is the job's own state point file / document (2602a0e) *)
 Theorem C13_sync_superset : forall frepr p fuel o deep sdir ddir subdir d' c m,
   wf_node (Dir sdir) = true -> o_dry_run o = false ->
   sync_ws frepr cfg_current fuel o deep sdir ddir subdir = (d', None) ->
-  lookup_path p (Dir sdir) = Some (File c m) -> absent_in p ddir = true ->
+  lookup_path p (Dir sdir) = Some (File c m) -> absent_in false p ddir = true ->
   (o_recursive o = true \/ length p = 1%nat) -> clear_path cfg_current o p = true ->
   lookup_path p (Dir d') = Some (File c NOW).
 Proof. exact ws_superset_current. Qed.
 Print Assumptions C13_sync_superset.
 
+(* o_top is true at every entry point and false in every recursive call of the walk *)
 Theorem C13_excluded_means : forall o n,
   excluded cfg_current o n =
-  (o_exclude o n || str_eqb FN_SP n || match o_docsync o with DS_copy => false | _ => str_eqb FN_DOC n end).
+  (o_exclude o n
+   || (o_top o && (str_eqb FN_SP n || match o_docsync o with DS_copy => false | _ => str_eqb FN_DOC n end))).
 Proof. exact excluded_current. Qed.
 Print Assumptions C13_excluded_means.
+
+Theorem C13_excluded_below_top_level : forall o n, excluded cfg_current (set_top o false) n = o_exclude o n.
+Proof. exact excluded_below_current. Qed.
+Print Assumptions C13_excluded_below_top_level.
+
+(* a name that is a file on one side and a directory on the other is never passed over silently: a walk of the
+   level that returns (no exception) has every such name excluded *)
+Theorem C13_kind_clash_never_silent : forall frepr fuel o deep sdir ddir subdir d' n,
+  sync_ws frepr cfg_current (S fuel) o deep sdir ddir subdir = (d', None) ->
+  In n (names cfg_current sdir) -> classify frepr deep n sdir ddir = Funny -> excluded cfg_current o n = true.
+Proof. exact kind_clash_never_silent. Qed.
+Print Assumptions C13_kind_clash_never_silent.
 
 (* regression: the former counterexamples (a source-only file named 'tags' / 'signac_statepoint.json.bak', and
    the witnesses of the repaired C14 / C15 defects) satisfy all three oracles in the model of /repo now *)
